@@ -46,6 +46,7 @@ type cIn struct {
 	tCall      time.Duration // virtual instants of invocation and return
 	tRet       time.Duration
 	fromLoader bool // cGet miss that stands for "Take called its loader"
+	raceSet    bool // cDel whose call interval overlaps a Set of the same key by another client
 }
 
 type cOut struct {
@@ -64,6 +65,10 @@ type cEntry struct {
 // cState is immutable: entries, most recently used first.
 type cState struct {
 	ents []cEntry
+	// relaxed model only: keys (bit set) whose entry was deleted by Del when its timer
+	// may already have fired, so that the asynchronous expiry task of the deleted entry
+	// may still be in flight and delete whatever is stored under the key next
+	ghost uint32
 }
 
 func (s cState) String() string {
@@ -83,7 +88,7 @@ func (s cState) String() string {
 }
 
 func cEqual(a, b cState) bool {
-	if len(a.ents) != len(b.ents) {
+	if len(a.ents) != len(b.ents) || a.ghost != b.ghost {
 		return false
 	}
 	for i := range a.ents {
@@ -106,7 +111,14 @@ func (s cState) find(key int) int {
 // cacheModel carries the configuration of the modelled cache.
 type cacheModel struct {
 	limit   int  // 0: unlimited
-	relaxed bool // also accept the "fresh Set deleted by the expiry of the previous entry" race
+	// relaxed > 0 also accepts histories explained by the cache's asynchronous expiry task deleting
+	// by key whatever is stored by then (known findings; each level names one history class):
+	//  1: a Set over an entry whose timer was due is deleted by that timer
+	//  2: + an entry deleted by Del (or evicted) when its timer was due leaves an expiry task in
+	//       flight that deletes the next value stored under the key
+	//  3: + a Del overlapping a Set of the same key (another client) leaves the Set's timer behind
+	//       (orphan), which later deletes the next value stored under the key
+	relaxed int
 	steps   int  // number of step evaluations (budget of the linearizability search)
 }
 
@@ -127,7 +139,7 @@ func (m *cacheModel) step(st cState, in cIn, out cOut) []cState {
 	// entries that may have expired by the time this operation took effect
 	var elig []int
 	for i, e := range st.ents {
-		if in.tRet-e.setAt >= e.life || (m.relaxed && e.racy) {
+		if in.tRet-e.setAt >= e.life || (m.relaxed >= 1 && e.racy) {
 			elig = append(elig, i)
 		}
 	}
@@ -148,15 +160,16 @@ func (m *cacheModel) step(st cState, in cIn, out cOut) []cState {
 				}
 			}
 		}
-		cur := cState{ents: ents}
+		cur := cState{ents: ents, ghost: st.ghost}
 		idx := cur.find(in.key)
+		gbit := uint32(1) << uint(in.key%32)
 		switch in.kind {
 		case cGet:
 			if out.ok {
 				if idx < 0 || ents[idx].val != out.val {
 					continue
 				}
-				res = append(res, cState{ents: append([]cEntry{ents[idx]}, without(ents, idx)...)})
+				res = append(res, cState{ents: append([]cEntry{ents[idx]}, without(ents, idx)...), ghost: st.ghost})
 			} else {
 				if idx >= 0 {
 					continue
@@ -166,26 +179,40 @@ func (m *cacheModel) step(st cState, in cIn, out cOut) []cState {
 		case cMaybeGet:
 			res = append(res, cur) // shared another Take's result without touching the cache
 			if idx >= 0 && ents[idx].val == out.val {
-				res = append(res, cState{ents: append([]cEntry{ents[idx]}, without(ents, idx)...)})
+				res = append(res, cState{ents: append([]cEntry{ents[idx]}, without(ents, idx)...), ghost: st.ghost})
 			}
 		case cSet:
 			ne := cEntry{key: in.key, val: in.val, setAt: in.tCall, life: guaranteedLife(in.expire)}
 			if idx >= 0 {
 				old := ents[idx]
-				if m.relaxed && (old.racy || in.tRet-old.setAt >= old.life) {
+				if m.relaxed >= 1 && (old.racy || in.tRet-old.setAt >= old.life) {
 					ne.racy = true
 				}
-				res = append(res, cState{ents: append([]cEntry{ne}, without(ents, idx)...)})
+				res = append(res, cState{ents: append([]cEntry{ne}, without(ents, idx)...), ghost: st.ghost &^ gbit})
 			} else {
+				if m.relaxed >= 2 && st.ghost&gbit != 0 {
+					ne.racy = true
+				}
 				n := append([]cEntry{ne}, ents...)
+				g := st.ghost &^ gbit
 				if m.limit > 0 && len(n) > m.limit {
+					for _, ev := range n[m.limit:] {
+						// evicted when its timer may already have fired: same in-flight expiry task
+						if m.relaxed >= 2 && (ev.racy || in.tRet-ev.setAt >= ev.life) {
+							g |= uint32(1) << uint(ev.key%32)
+						}
+					}
 					n = n[:m.limit]
 				}
-				res = append(res, cState{ents: n})
+				res = append(res, cState{ents: n, ghost: g})
 			}
 		case cDel:
 			if idx >= 0 {
-				res = append(res, cState{ents: without(ents, idx)})
+				g := st.ghost
+				if old := ents[idx]; (m.relaxed >= 2 && (old.racy || in.tRet-old.setAt >= old.life)) || (m.relaxed >= 3 && in.raceSet) {
+					g |= gbit
+				}
+				res = append(res, cState{ents: without(ents, idx), ghost: g})
 			} else {
 				res = append(res, cur)
 			}
